@@ -1,7 +1,75 @@
 import Dhcp.Driver.Hex
-/- Line-protocol operations of the `Client` family (stub until the model lands). -/
-namespace Dhcp.Driver
+import Dhcp.Client.Timed
+import Dhcp.Driver.ClientLTS
+/-
+  Line-protocol operations of the `Client` family.
 
-def stepClient (_op : String) (_args : List String) : Option String := none
+  `client4|client6 T=<ns> n=<int> cap=<k> m=<tag|nil> H=<ns> ev=<t>:<kind>:<s|n>,…`
+      one SendAndRead call under virtual time (Dhcp.Client.Timed.runCall).
+      kinds: acc rej (same xid, matcher accepts / rejects; with m=nil both are
+      accepted), ix ig io ih ie (wrong xid, garbage, wrong op, wrong hwaddr,
+      empty: all dropped by the receive loop), can (ctx cancelled), clo (Close).
+      `s` = applied after quiescence, `n` = applied right away.
+      Output: `ok <alt> | <alt> | …`, every result the model allows, each
+      `tx=<t,…|-> ret=<t>:<resp<i>|noresp|ctx>|running close=<t|->`.
+
+  `client4m|client6m …`: multi-caller scenarios on the interleaving model, see
+  Dhcp/Driver/ClientLTS.lean.
+-/
+namespace Dhcp.Driver
+open Dhcp.Client
+
+def parseEvKind (matchNil : Bool) : String → Option Timed.EvKind
+  | "acc" => some .acc
+  | "rej" => some (if matchNil then .acc else .rej)
+  | "ix" | "ig" | "io" | "ih" | "ie" => some .irr
+  | "can" => some .cancel
+  | "clo" => some .close
+  | _ => none
+
+def parseEvent (matchNil : Bool) (s : String) : Option Timed.Event :=
+  match s.splitOn ":" with
+  | [t, k, f] => do
+    let t ← t.toInt?
+    let k ← parseEvKind matchNil k
+    let sync ← (if f == "s" then some true else if f == "n" then some false else none)
+    pure { t := t, kind := k, sync := sync }
+  | _ => none
+
+def parseEvents (matchNil : Bool) (s : String) : Option (List Timed.Event) :=
+  if s == "-" then some [] else (s.splitOn ",").mapM (parseEvent matchNil)
+
+def showInts (l : List Int) : String :=
+  if l.isEmpty then "-" else ",".intercalate (l.map toString)
+
+def showOutcome : Timed.Outcome → String
+  | .resp i => s!"resp{i}"
+  | .noResp => "noresp"
+  | .ctxErr => "ctx"
+
+def showResult (close : Option Int) (r : Timed.Result) : String :=
+  let ret := match r.ret with
+    | some (t, o) => s!"{t}:{showOutcome o}"
+    | none => "running"
+  let cl := match close with
+    | some t => toString t
+    | none => "-"
+  s!"tx={showInts r.txs} ret={ret} close={cl}"
+
+def stepTimed (args : List String) : Option String := do
+  let f := field args
+  let T ← (← f "T").toInt?
+  let n ← (← f "n").toInt?
+  let H ← (← f "H").toInt?
+  let m ← f "m"
+  let evs ← parseEvents (m == "nil") (← f "ev")
+  let rs := Timed.runCall T n evs H
+  let cl := (Timed.closeTime evs).bind (fun t => if t ≤ H then some t else none)
+  pure ("ok " ++ " | ".intercalate (rs.map (showResult cl)))
+
+def stepClient (op : String) (args : List String) : Option String :=
+  match op with
+  | "client4" | "client6" => stepTimed args
+  | _ => stepClientLTS op args
 
 end Dhcp.Driver
